@@ -1474,8 +1474,9 @@ impl ReaderState {
         let parent_tag = self.get_parent_tag().to_string();
         let expr = attr.get(ATTR_EXPR);
 
+        // An element written with start- and end-tag but without children is the same as the empty-element form.
         let content = if has_content {
-            Some(self.read_content(TAG_CONTENT, reader))
+            Some(self.read_content(TAG_CONTENT, reader)).filter(|c| !c.is_empty())
         } else {
             None
         };
@@ -1631,15 +1632,16 @@ impl ReaderState {
             assign.expr = self.create_source(expr_value);
         }
 
-        let assign_text = if has_content {
-            format!(
-                "\"{}\"",
-                self.read_content(TAG_ASSIGN, reader)
-                    .replace("\"", "\\\"")
-                    .replace("\n", " ")
-            )
+        let child_text = if has_content {
+            self.read_content(TAG_ASSIGN, reader)
         } else {
             String::new()
+        };
+        // No children (also in the form <assign ...></assign>): no text to assign.
+        let assign_text = if child_text.is_empty() {
+            String::new()
+        } else {
+            format!("\"{}\"", child_text.replace("\"", "\\\"").replace("\n", " "))
         };
 
         let assign_src = assign_text.trim();
